@@ -6,12 +6,12 @@ import (
 	"fmt"
 	"os"
 	"os/exec"
-	"syscall"
-	"time"
 	"runtime/debug"
 	"sort"
 	"strconv"
 	"strings"
+	"syscall"
+	"time"
 
 	"github.com/cloudwego/thriftgo/fieldmask"
 
